@@ -114,8 +114,14 @@ func (jit *JITCompiler) CompileRoute(name string, route *ast.Route) ([]byte, err
 	startTime := time.Now()
 
 	// Check if we have a cached compiled unit
+	// The unit's fields are rewritten by recompileRoute under unitsMux: read
+	// them under the same lock, once, and work with that snapshot.
 	jit.unitsMux.RLock()
 	unit, exists := jit.units[name]
+	var snapshot CompilationUnit
+	if exists {
+		snapshot = *unit
+	}
 	jit.unitsMux.RUnlock()
 
 	if exists {
@@ -125,11 +131,11 @@ func (jit *JITCompiler) CompileRoute(name string, route *ast.Route) ([]byte, err
 		jit.statsMux.Unlock()
 
 		// Check if we should recompile to a higher tier
-		if jit.shouldRecompile(unit) {
+		if jit.shouldRecompile(&snapshot) {
 			return jit.recompileRoute(name, route, unit)
 		}
 
-		return unit.Bytecode, nil
+		return snapshot.Bytecode, nil
 	}
 
 	// Cache miss - compile for the first time
@@ -233,7 +239,10 @@ func (jit *JITCompiler) recompileRoute(name string, route *ast.Route, currentUni
 	startTime := time.Now()
 
 	// Determine next tier
-	nextTier := jit.getNextTier(currentUnit.Tier)
+	jit.unitsMux.RLock()
+	currentTier := currentUnit.Tier
+	jit.unitsMux.RUnlock()
+	nextTier := jit.getNextTier(currentTier)
 
 	// Compile with new tier
 	bytecode, err := jit.compileWithTier(route, nextTier)
@@ -435,13 +444,18 @@ func (jit *JITCompiler) CompileRouteWithTypes(name string, route *ast.Route, typ
 func (jit *JITCompiler) CheckAdaptiveRecompilation(name string, route *ast.Route) (bool, error) {
 	jit.unitsMux.RLock()
 	unit, exists := jit.units[name]
+
+	var tier OptimizationTier
+	if exists {
+		tier = unit.Tier
+	}
 	jit.unitsMux.RUnlock()
 
 	if !exists {
 		return false, nil
 	}
 
-	trigger := jit.recompileTrigger.ShouldRecompile(name, unit.Tier)
+	trigger := jit.recompileTrigger.ShouldRecompile(name, tier)
 	if !trigger.ShouldRecompile {
 		return false, nil
 	}
@@ -464,12 +478,11 @@ func (jit *JITCompiler) CheckAdaptiveRecompilation(name string, route *ast.Route
 func (jit *JITCompiler) RecordDeoptimization(routeName string, reason string, typeMismatch map[string]string) {
 	jit.unitsMux.RLock()
 	unit, exists := jit.units[routeName]
-	jit.unitsMux.RUnlock()
-
 	var fromTier OptimizationTier
 	if exists {
 		fromTier = unit.Tier
 	}
+	jit.unitsMux.RUnlock()
 
 	record := DeoptimizationRecord{
 		RouteName:    routeName,
